@@ -1,7 +1,7 @@
 """C05 - approximate algorithms return a basis of the caller's graph with true weight."""
 from lib import engine
 from lib.core import tier
-from units import k17_spanner, k18d_dijkstra
+from units import k17_spanner, k18d_dijkstra, k18b_closing
 from . import common
 
 LEVEL = "other"
@@ -13,7 +13,9 @@ EXPLANATION = (
     "cycle, edge for edge the TRANSLATION of the spanner edge (a caller's edge by K17a), and adds to the returned weight "
     "exactly the caller's weights of those edges (K18a; small ghost tables); and parmcb::dijkstra, which supplies the path that "
     "closes a dropped edge, computes exact shortest-path distances and a tight predecessor tree (K18d, n<=4/5, loop contracts "
-    "with quantified invariants, heap through its contract; lemma DESIGN 10.10; direct Bellman-Ford variant + native replay).  "
+    "with quantified invariants, heap through its contract; lemma DESIGN 10.10; direct Bellman-Ford variant + native replay); the loop body "
+    "that closes ONE dropped edge - dijkstra by that contract, the predecessor walk closed by a loop contract with variant DIST - emits the translated "
+    "tree path followed by the edge itself and reports w(e) + the CALLER's weights of the path = w(e) + the shortest spanner distance (K18b, n<=4/5).  "
     "BOUNDED for everything else: "
     "Contract K18 (for every k>=1: exactly m-n+c simple cycles, GF(2)-independent, every edge descriptor is one "
     "of the CALLER's edges - checked by identity against the caller's edge set and by reading the caller's "
@@ -25,7 +27,7 @@ EXPLANATION = (
 
 
 def run(rep):
-    engine.run_units(rep, [u for u in k17_spanner.units(tier()) if u.get("unit", "").startswith("K18a")] + k18d_dijkstra.units(tier()))
+    engine.run_units(rep, [u for u in k17_spanner.units(tier()) if u.get("unit", "").startswith("K18a")] + k18d_dijkstra.units(tier()) + k18b_closing.units(tier()))
     common.native_filtered(rep, "e3_approx", KINDS, args=["--only", "approx"],
                            functions={"approx_mcb_sva_signed": "bounded", "approx_mcb_sva_fvs_trees": "bounded",
                                       "approx_mcb_sva_iso_trees": "bounded", "BaseApproxSpannerAlgorithm::run": "bounded",
